@@ -267,35 +267,47 @@ func (r *sortReg) declareFun(sym, decl string) {
 	}
 }
 
-// box/unbox for interface payloads whose sort is not Int
-func (r *sortReg) box(sortName, x string) string {
-	switch sortName {
-	case "Int":
-		return x
-	case "Bool":
-		return S("ite", x, "1", "0")
+// Interface payloads. Reference-like values (pointers, maps, channels, funcs)
+// are stored as the reference itself (>= 0, below the allocation watermark);
+// every other value goes through an injective box function whose range is
+// negative, so that "payload < ALLOC" holds for every interface value and
+// freshness of a boxed pointer can be decided.
+func isRefLike(t types.Type) bool {
+	switch u := t.Underlying().(type) {
+	case *types.Pointer, *types.Map, *types.Chan, *types.Signature:
+		return true
+	case *types.Basic:
+		return u.Kind() == types.UnsafePointer
 	}
+	return false
+}
+
+func (r *sortReg) boxFns(sortName string) (b, u string) {
 	key := strings.NewReplacer("(", "_", ")", "_", " ", "_", "|", "").Replace(sortName)
-	b, u := q("box!"+key), q("unbox!"+key)
+	b, u = q("box!"+key), q("unbox!"+key)
 	if !r.boxSorts[sortName] {
 		r.boxSorts[sortName] = true
 		r.declareFun(b, fmt.Sprintf("(declare-fun %s (%s) Int)", b, sortName))
 		r.declareFun(u, fmt.Sprintf("(declare-fun %s (Int) %s)", u, sortName))
-		r.extraAxioms = append(r.extraAxioms, fmt.Sprintf("(assert (forall ((x %s)) (! (= (%s (%s x)) x) :pattern ((%s x)))))", sortName, u, b, b))
+		r.extraAxioms = append(r.extraAxioms, fmt.Sprintf("(assert (forall ((x %s)) (! (and (= (%s (%s x)) x) (< (%s x) 0)) :pattern ((%s x)))))", sortName, u, b, b, b))
 	}
+	return b, u
+}
+
+func (r *sortReg) boxT(t types.Type, x string) string {
+	if isRefLike(t) {
+		return x
+	}
+	b, _ := r.boxFns(r.sortOf(t))
 	return S(b, x)
 }
 
-func (r *sortReg) unbox(sortName, x string) string {
-	switch sortName {
-	case "Int":
+func (r *sortReg) unboxT(t types.Type, x string) string {
+	if isRefLike(t) {
 		return x
-	case "Bool":
-		return S("not", S("=", x, "0"))
 	}
-	r.box(sortName, "0") // ensure declared (the dummy term is discarded)
-	key := strings.NewReplacer("(", "_", ")", "_", " ", "_", "|", "").Replace(sortName)
-	return S(q("unbox!"+key), x)
+	_, u := r.boxFns(r.sortOf(t))
+	return S(u, x)
 }
 
 const smtPreludeCore = `(declare-datatypes ((Slice 0)) (((mk-slice (s-base Int) (s-off Int) (s-len Int) (s-cap Int)))))
